@@ -3,6 +3,7 @@
   H := Lean Keccak-256 and V := symbolic signature provenance.
 -/
 import Cgp.Gateway
+import Cgp.GatewayOps
 import Cgp.Keccak
 import Cgp.Tok
 namespace Cgp.Drive.Gw
@@ -103,6 +104,22 @@ def finish (s : GwS) (r : Except Err (State × List Event)) : GwS × StepOut :=
 
 def boolTok (b : Bool) : String := if b then "b1" else "b0"
 
+/-- outcome class of a refused administrative call -/
+def adminErrKind : Err → String
+  | .unauthorized => "unauthorized"
+  | e => errName e
+
+/-- `upgrade` to the same code and then (only if it succeeded) `migrate`, both with the authorisers `auths`, run through the
+    transition system `Cgp.Gateway.step`. The state after the last step taken is kept: a refused step leaves the world as it
+    was, so a failed migration after a successful upgrade keeps the window open. -/
+def upgradeMigrate (s : GwS) (st : State) (auths : List Addr) : GwS × StepOut :=
+  match Gateway.step H V ⟨st, s.now⟩ (Gateway.Op.upgrade auths) with
+  | (w1, .err e) => ({ s with st := some w1.st }, ⟨"err", adminErrKind e⟩)
+  | (w1, _) =>
+    match Gateway.step H V w1 (Gateway.Op.migrate auths) with
+    | (w2, .err e) => ({ s with st := some w2.st }, ⟨"err", adminErrKind e⟩)
+    | (w2, _) => ({ s with st := some w2.st }, ⟨"ok", "ok"⟩)
+
 def step (s : GwS) (t : List String) : GwS × StepOut :=
   match t with
   | ["time", now, seq] =>
@@ -157,10 +174,10 @@ def step (s : GwS) (t : List String) : GwS × StepOut :=
         | some n, some au => finish s (transferOperatorship st (au.toList [st.operator]) n)
         | _, _ => bad s op
       | "gw.upgrade_migrate", [auth] =>
-        -- upgrade to the same code + migration of the current tree: owner only, and the identity on everything modelled
-        if auth = "@" then (s, ⟨"ok", "ok"⟩) else
+        -- upgrade to the same code + migration of the current tree: the model's `.upgrade` then `.migrate`
+        if auth = "@" then upgradeMigrate s st [st.owner] else
         match parseAuth auth with
-        | some au => if st.owner ∈ au.toList [st.owner] then (s, ⟨"ok", "ok"⟩) else (s, ⟨"err", "unauthorized"⟩)
+        | some au => upgradeMigrate s st (au.toList [st.owner])
         | none => bad s op
       | "gw.epoch", [] => (s, ⟨"ok U" ++ toString st.epoch, "ok"⟩)
       | "gw.owner", [] => (s, ⟨"ok " ++ addrTok st.owner, "ok"⟩)
